@@ -44,6 +44,15 @@ non-trivial = the IRI contains a dot/empty/encoded segment or an absolute remain
         let mut path: Vec<String> = (0..n).map(|_| r.pick(&segs).clone()).collect();
         let abs_attack = r.chance(1, 10);
         if abs_attack { path = vec![format!("/{}", canary_abs.trim_start_matches('/')), ]; if r.chance(1, 2) { path.insert(0, "".into()); } }
+        // directed escape attempts: climb out with (possibly encoded) parent steps, then name a canary
+        let climb = !abs_attack && r.chance(1, 4);
+        if climb {
+            let ups = ["..", "%2e%2e", "%2E%2E", ".%2e", "%2e.", "..%2f..", "%2e%2e%2f%2e%2e", "sub/..", "d/../.."];
+            let targets = ["secret", "secret.ttl", "a.ttl", "g.ttl", "outside/secret.ttl", "outside/secret", "r1x/a.ttl", "r1x/a", "r2/a", "r1/b", "..%2fsecret.ttl"];
+            path = (0..r.range(1, 3)).map(|_| r.ps(&ups).to_string()).collect();
+            if r.chance(1, 5) { path.insert(0, r.pick(&segs).clone()); }
+            path.push(r.ps(&targets).to_string());
+        }
         let long = r.chance(1, 40);
         if long { path.push("x".repeat(300)); }
         let mut iri = format!("{prefix}{}", path.join("/"));
@@ -75,7 +84,7 @@ non-trivial = the IRI contains a dot/empty/encoded segment or an absolute remain
         let nontrivial = iri.contains("..") || iri.contains("/./") || iri.contains("//e") == false && iri[7..].contains("//") || iri.contains("%2") || abs_attack || (code == 0 && !iri.split('#').next().unwrap().ends_with(pth.last().map(|s| s.as_str()).unwrap_or("")));
         if seen.insert(text.clone()) && nontrivial { sum.distinct_nontrivial += 1; }
         sum.bump(&format!("result:{}", ["found", "not-found", "unsupported", "io-error"].get(code as usize).unwrap_or(&"other")));
-        if abs_attack { sum.bump("absolute-remainder"); } if iri.contains("..") { sum.bump("has-dotdot"); }
+        if abs_attack { sum.bump("absolute-remainder"); } if climb { sum.bump("directed-climb"); } if iri.contains("..") { sum.bump("has-dotdot"); }
         if sum.samples.len() < 5 && nontrivial && (code == 0 || sum.samples.len() < 2) { sum.samples.push(format!("case {idx}: {text} => {desc}")); }
         sum.evaluations += 1;
         if !long { cases.push((idx, format!("get_ok the_fs Consts.loader_exts {} {} {code} {} {ct}", if use_b { "cfgB" } else { "cfgA" }, coq_str(&iri), c_path(&pth)))); }
